@@ -1,6 +1,7 @@
 // Reader / writer rigs: every library-provided reader and writer behind one small interface, plus the
 // scripted, call-logging, fault-injecting probe reader/writer used for C10/C15/C16.
 #pragma once
+#include <memory>
 #include <functional>
 #include <fstream>
 #include <iterator>
@@ -52,7 +53,20 @@ struct WBuf {
   OpaqueBuf mem;
   nop::BufferWriter w;
   explicit WBuf(size_t cap) : mem(cap), w(mem.p, launder(cap)) {}
-  template <class T> St write(const T& v) { nop::Serializer<nop::BufferWriter*> s{&w}; return s.Write(v); }
+  // the three forms of Serializer (pointer, owning pointer, by value) take turns with the capacity; the owning and the
+  // by-value form work on a copy of the writer (pointer, size, index) that is copied back after the call
+  template <class T> St write(const T& v) {
+    switch (mem.n % 3) {
+      case 0: { nop::Serializer<nop::BufferWriter*> s{&w}; return s.Write(v); }
+      case 1: {
+        nop::Serializer<std::unique_ptr<nop::BufferWriter>> s{std::unique_ptr<nop::BufferWriter>(new nop::BufferWriter(w))};
+        St st = s.Write(v);
+        w = s.writer();
+        return st;
+      }
+      default: { nop::Serializer<nop::BufferWriter> s{w}; St st = s.Write(v); w = s.writer(); return st; }
+    }
+  }
   template <class T> size_t getsize(const T& v) { nop::Serializer<nop::BufferWriter*> s{&w}; return s.GetSize(v); }
   size_t size() const { return w.size(); }
   std::vector<uint8_t> bytes() const { size_t n = std::min(w.size(), mem.n); return std::vector<uint8_t>(mem.p, mem.p + n); }
@@ -65,7 +79,18 @@ struct WPed {
   OpaqueBuf mem;
   nop::PedanticBufferWriter w;
   explicit WPed(size_t cap) : mem(cap), w(mem.p, launder(cap)) {}
-  template <class T> St write(const T& v) { nop::Serializer<nop::PedanticBufferWriter*> s{&w}; return s.Write(v); }
+  template <class T> St write(const T& v) {
+    switch (mem.n % 3) {
+      case 0: { nop::Serializer<nop::PedanticBufferWriter*> s{&w}; return s.Write(v); }
+      case 1: { nop::Serializer<nop::PedanticBufferWriter> s{w}; St st = s.Write(v); w = s.writer(); return st; }
+      default: {
+        nop::Serializer<std::unique_ptr<nop::PedanticBufferWriter>> s{std::unique_ptr<nop::PedanticBufferWriter>(new nop::PedanticBufferWriter(w))};
+        St st = s.Write(v);
+        w = s.writer();
+        return st;
+      }
+    }
+  }
   size_t size() const { return w.size(); }
   std::vector<uint8_t> bytes() const { size_t n = std::min(w.size(), mem.n); return std::vector<uint8_t>(mem.p, mem.p + n); }
   bool intact() const { return mem.intact(); }
@@ -176,7 +201,19 @@ struct RBuf {
   OpaqueBuf mem;
   nop::BufferReader r;
   RBuf(const uint8_t* d, size_t n) : mem(d, n), r(mem.p, launder(n)) {}
-  template <class T> St read(T* v) { nop::Deserializer<nop::BufferReader*> s{&r}; return s.Read(v); }
+  // the three forms of Deserializer take turns with the input length
+  template <class T> St read(T* v) {
+    switch (mem.n % 3) {
+      case 0: { nop::Deserializer<nop::BufferReader*> s{&r}; return s.Read(v); }
+      case 1: {
+        nop::Deserializer<std::unique_ptr<nop::BufferReader>> s{std::unique_ptr<nop::BufferReader>(new nop::BufferReader(r))};
+        St st = s.Read(v);
+        r = s.reader();
+        return st;
+      }
+      default: { nop::Deserializer<nop::BufferReader> s{r}; St st = s.Read(v); r = s.reader(); return st; }
+    }
+  }
   size_t consumed() const { return mem.n - r.remaining(); }
   static int trunc_error() { return (int)nop::ErrorStatus::ReadLimitReached; }
 };
@@ -187,7 +224,18 @@ struct RPed {
   OpaqueBuf mem;
   nop::PedanticBufferReader r;
   RPed(const uint8_t* d, size_t n) : mem(d, n), r(mem.p, launder(n)) {}
-  template <class T> St read(T* v) { nop::Deserializer<nop::PedanticBufferReader*> s{&r}; return s.Read(v); }
+  template <class T> St read(T* v) {
+    switch (mem.n % 3) {
+      case 0: { nop::Deserializer<nop::PedanticBufferReader*> s{&r}; return s.Read(v); }
+      case 1: { nop::Deserializer<nop::PedanticBufferReader> s{r}; St st = s.Read(v); r = s.reader(); return st; }
+      default: {
+        nop::Deserializer<std::unique_ptr<nop::PedanticBufferReader>> s{std::unique_ptr<nop::PedanticBufferReader>(new nop::PedanticBufferReader(r))};
+        St st = s.Read(v);
+        r = s.reader();
+        return st;
+      }
+    }
+  }
   size_t consumed() const { return mem.n - r.remaining(); }
   static int trunc_error() { return (int)nop::ErrorStatus::ReadLimitReached; }
 };
